@@ -207,45 +207,24 @@ def addErrClass : AddErr → String
 /-- the state of `self.model.units`: pint registry and `_known_units` -/
 abbrev UStore := Registry × Store
 
-/-- `self.model.units.is_defined(name)`: `name in self._known_units` -/
-def isDefined (u : UStore) (name : String) : Bool := u.2.known.contains name
+/-- `self.model.units.is_defined(name)`: `name in self._known_units` — the set starts as `set(_CELLML_UNITS)` and
+    receives every name added through the store, so this is the hand model's `Store.isDefined` (built-ins included;
+    tied to the source of `UnitStore.is_defined` / `__init__` by `PUnits.isDefined_tie`, `init_tie`) -/
+def isDefined (u : UStore) (name : String) : Bool := u.2.isDefined name
 
 /-- `self.model.units.add_base_unit(name)` -/
 def addBaseUnitLeaf (u : UStore) (name : String) : Except PyErr UStore :=
   errClass addErrClass (addBaseUnit u.1 u.2 name)
 
-/-- `UnitStore.add_unit` after its three name tests, given the value pint computed for the expression: this is
-    `Units.addUnit` with the value as a parameter (`addUnit_eq_with` in Tie/UnitDefs.lean: `rfl`) -/
-def addUnitWith (m : Except DefErr (Scale × Container × Bool)) (reg : Registry) (st : Store) (name : String) :
-    Except AddErr (Registry × Store) :=
-  match m with
-  | .error .offset => .error (.valueError "offset")
-  | .error (.badNumber w) => .error (.badDefinition w)
-  | .error (.unsupported w) => .error (.unsupported w)
-  | .ok (k, c, mentionsDimless) =>
-    if Cellml.Gen.cellmlUnits.contains name then .error (.valueError "redefine CellML unit")
-    else if st.known.contains name then .error (.valueError "redefine unit")
-    else if Cellml.Gen.unsupportedUnits.contains name then .error (.valueError "unsupported unit")
-    else
-      let c' := PMap.norm c
-      if !allKnown reg c' then .error .undefinedUnit
-      else if c' = [] then
-        .ok ((prefixName st.id name, .derived (PMap.norm k) []) :: reg, { st with known := name :: st.known })
-      else if mentionsDimless then
-        .error (.unsupported "dimensionless mixed with dimensional units")
-      else
-        .ok ((prefixName st.id name, .derived (PMap.norm k) c') :: reg, { st with known := name :: st.known })
-
-/-- `self.model.units.add_unit(name, definition)` (units.py 143-181): the three tests on the name in the order of the
-    source, every identifier of the expression must be a key of the pint registry, then the definition proper -/
+/-- `self.model.units.add_unit(name, definition)` (units.py 143-181): the hand model `Units.addUnitWith` (the three
+    tests on the name in the order of the source, every identifier of the expression must be a key of the pint
+    registry, then the definition proper) on what pint makes of the expression the generated
+    `_make_pint_unit_definition` built: its identifiers and its value (`denAll`). `Units.addUnit` is the same function
+    on the `<unit>` elements (`addUnit_eq_with` in Tie/UnitDefs.lean). -/
 def addUnitLeaf (u : UStore) (name : String) (d : PintDef) : Except PyErr UStore :=
   errClass addErrClass (
-    if Cellml.Gen.cellmlUnits.contains name then .error (.valueError "redefine CellML unit")
-    else if u.2.known.contains name then .error (.valueError "redefine unit")
-    else if Cellml.Gen.unsupportedUnits.contains name then .error (.valueError "unsupported unit")
-    else if !(d.factors.all (fun e => e.names.all (fun n => allKnown u.1 (nameContainer (mangle u.2.id n)))))
-      then .error .undefinedUnit
-    else addUnitWith (denAll u.2.id d.factors) u.1 u.2 name)
+    Units.addUnitWith (d.factors.all (fun e => e.names.all (fun n => allKnown u.1 (nameContainer (mangle u.2.id n)))))
+      (denAll u.2.id d.factors) u.1 u.2 name)
 
 /-- the python spelling of the `base_units` attribute of a `<units>` element (`units_element.get('base_units')`):
     the model keeps only whether it is `yes` -/
